@@ -122,7 +122,21 @@ class Project:
 
     def generate(self):
         """Build with the code under test and lay out all files.  Raises on a build failure."""
-        kind, res = cfgspec.outcome(self.spec, model=self.sm['model'])
+        prior = self.spec.get('_prior')
+        if prior:
+            # a history: earlier builds by the same Builder (and on the same parsed contents where
+            # the entry has no model of its own); their outcome is of no concern here
+            from dznpy.adv_shell import Builder
+            builder = Builder()
+            fc = cfgspec.parse_model(self.sm['model'])
+            for pb in prior:
+                if pb.get('model') is not None:
+                    cfgspec.outcome(pb['spec'], model=pb['model'], builder=builder)
+                else:
+                    cfgspec.outcome(pb['spec'], fc=fc, builder=builder)
+            kind, res = cfgspec.outcome(self.spec, fc=fc, builder=builder)
+        else:
+            kind, res = cfgspec.outcome(self.spec, model=self.sm['model'])
         if kind == 'err':
             raise res
         self.files = res
